@@ -128,6 +128,13 @@ def classify_ir(case):
     if not sel_paths:
         return [], {**info, "skipped": "nothing selectable"}
     expr = or_of(sel_paths)
+    others = [p for p in sorted(f0) if p not in sel_paths]
+    if case.get("sel_form") == "complement" and others:
+        # the same set of leaves, written as "everything except the others" (a complement that descends into sub-calls)
+        expr = ["not", or_of(others)]
+        info["selection_written_as_complement"] = True
+    if sorted(p for p in f0 if selref.selected(expr, p)) != sorted(sel_paths):
+        raise RuntimeError("C09 harness: complement form selects a different set")
     g = selref.to_genjax(expr)
     info["selected"] = ["/".join(p) for p in sel_paths]
     info["array_valued"] = any(np.ndim(f0[p]) > 0 for p in sel_paths)
@@ -178,6 +185,12 @@ def classify_ir(case):
 
     log_alpha = None
     if kern == "mh":
+        # regenerate-from-prior proposal: every selected continuous leaf is a fresh draw (an accepted proposal that left a
+        # selected leaf at its old value did not propose it)
+        for p in sel_paths:
+            if linfo.get(p, ("",))[0] in refmodel.CONTINUOUS and not (flipped and len(p) > 1) and np.all(np.asarray(fp[p]) == np.asarray(f0[p])):
+                fails.append((f"selected_not_proposed:{C}", f"mh accepted a proposal in which the selected address {'/'.join(p)} kept its old value {np.asarray(f0[p]).ravel()[:3].tolist()} (selection {selref.show(expr)})"))
+                return fails, info
         if not flipped:
             log_alpha = sum(float(np.sum(rp["site"][p]) - np.sum(r0["site"][p])) for p in unsel)
     else:
@@ -445,7 +458,7 @@ def ir_cases(force=None):
         paths = sorted(ref.leaf_info(*gfi.ref_args(p)))
         return {"kind": "ir", **p, "key": draw(st.integers(0, 2**30)), "observed": [list(q) for q in draw(st.lists(st.sampled_from(paths), unique=True, max_size=max(1, len(paths) // 2)))],
                 "kernel": draw(st.sampled_from(["mh", "mala", "hmc"])), "which": draw(st.lists(st.integers(0, 9), min_size=1, max_size=3)),
-                "eps": draw(st.sampled_from([0.05, 0.2, 0.6, 1.2])), "L": draw(st.integers(1, 4))}
+                "eps": draw(st.sampled_from([0.05, 0.2, 0.6, 1.2])), "L": draw(st.integers(1, 4)), "sel_form": draw(st.sampled_from(["or", "or", "complement"]))}
 
     return _c()
 
@@ -470,7 +483,7 @@ def one_case(ctx, case):
         fails, info = classify_ir(case)
         nt = ("selected" in info) and (info.get("array_valued") or info.get("into_subcall") or len(info["selected"]) >= 1)
         cls = [f"C09.ir_{case['kernel']}"] + ([f"C09.selected_array_valued"] if info.get("array_valued") else []) + (["C09.selection_inside_subcall"] if info.get("into_subcall") else []) + \
-              (["C09.threshold_checked"] if "alpha" in info else []) + (["C09.move_flipped_cond(threshold_not_asserted)"] if info.get("flip") else []) + [f"C09.prog_with_{f}" for f in sorted(modelir.features(case["prog"]))]
+              (["C09.threshold_checked"] if "alpha" in info else []) + (["C09.selection_written_as_complement"] if info.get("selection_written_as_complement") else []) + (["C09.move_flipped_cond(threshold_not_asserted)"] if info.get("flip") else []) + [f"C09.prog_with_{f}" for f in sorted(modelir.features(case["prog"]))]
         sample = {"program": case["prog"], "kernel": case["kernel"], "eps": case["eps"], "L": case["L"], "info": info}
     elif case["kind"] == "mixture":
         fails, info = classify_mixture(case, ctx, P["n1"])
